@@ -323,7 +323,7 @@ LIMITS = {
     'changeset_id_type': ('0', 'UINT32_MAX'), 'user_id_type': ('0', 'UINT32_MAX'),
     'object_version_type': ('0', 'UINT32_MAX'), 'object_id_type': ('INT64_MIN', 'INT64_MAX'),
     'unsigned_object_id_type': ('0', 'UINT64_MAX'), 'signed_user_id_type': ('INT32_MIN', 'INT32_MAX'),
-    'string_size_type': ('0', 'UINT16_MAX'), 'item_size_type': ('0', 'UINT32_MAX'),
+    'string_size_type': ('0', 'UINT16_MAX'), 'item_size_type': ('0', 'UINT32_MAX'), 'changeset_comment_size_type': ('0', 'UINT32_MAX'),
     'type': ('VERIF_TYPE_MIN', 'VERIF_TYPE_MAX'),
 }
 
@@ -782,8 +782,15 @@ def rw_maythrow_calls(s, R, maythrow):
             j = match_close(s, i)
             call = s[m.start():j + 1]
             rep = ('VERIF_CALLV(' if isvoid else 'VERIF_CALL(') + call + ')'
-            s = s[:m.start()] + rep + s[j + 1:]
-            pos = m.start() + len('VERIF_CALLV(' if isvoid else 'VERIF_CALL(') + len(fn) + 1
+            head = s[:m.start()]
+            # `auto x = f(..)`: goto-cc type-checks the initialiser of an __auto_type declaration twice, which re-declares the
+            # temporary of the wrapper; name the type by the call instead (typeof does not evaluate its operand)
+            ma = re.search(r'__auto_type(\s+\w+\s*=\s*)$', head)
+            if ma and not isvoid:
+                head = head[:ma.start()] + '__typeof__(' + call + ')' + ma.group(1)
+                R.hit('auto_from_maythrow_call')
+            s = head + rep + s[j + 1:]
+            pos = len(head) + len('VERIF_CALLV(' if isvoid else 'VERIF_CALL(') + len(fn) + 1
             R.hit('maythrow_call')
     return s
 
